@@ -23,6 +23,8 @@ import GeoProofs.Lemmas.C02XAreal
 import GeoProofs.Lemmas.C02YPairs
 import GeoProofs.Lemmas.C02YContains
 import GeoProofs.Lemmas.C02YPointSpec
+import GeoProofs.Lemmas.C02YLinear
+import GeoProofs.Lemmas.C02YRect
 
 namespace Geo.Proofs.C02
 open Geo
@@ -1270,6 +1272,68 @@ theorem containsM_line_line (a b c d : Pt) (ha : inDomain (.line a b) = true) (h
 example : containsM (.line ⟨0, 0⟩ ⟨4, 4⟩) (.line ⟨3, 3⟩ ⟨0, 0⟩) =
     Gen.isContains (relateSpec (.line ⟨0, 0⟩ ⟨4, 4⟩) (.line ⟨3, 3⟩ ⟨0, 0⟩)) :=
   containsM_line_line _ _ _ _ (by decide +kernel) (by decide +kernel)
+
+/-- [T] **`Line: Contains<LineString>` (all coordinates on the line, not all equal or the first one interior) is the mask on
+the specification** (valid operands: non-degenerate line; empty or simple line string). -/
+theorem containsM_line_lineString (a b : Pt) (cs : List Pt) (ha : inDomain (.line a b) = true)
+    (hb : inDomain (.lineString cs) = true) :
+    containsM (.line a b) (.lineString cs) = Gen.isContains (relateSpec (.line a b) (.lineString cs)) :=
+  Geo.Proofs.C02Y.containsM_line_lineString a b cs ha hb
+
+example : containsM (.line ⟨0, 0⟩ ⟨4, 0⟩) (.lineString [⟨1, 0⟩, ⟨2, 0⟩, ⟨3, 0⟩]) =
+    Gen.isContains (relateSpec (.line ⟨0, 0⟩ ⟨4, 0⟩) (.lineString [⟨1, 0⟩, ⟨2, 0⟩, ⟨3, 0⟩])) :=
+  containsM_line_lineString _ _ _ (by decide +kernel) (by decide +kernel)
+
+/-- [T] **the mask on the specification of `(LineString, Line)`** (non-degenerate line, ANY line string): every point of the
+segment is a point of the line string. -/
+theorem isContains_lineString_line (cs : List Pt) (c d : Pt) (hcd : c ≠ d) :
+    Gen.isContains (relateSpec (.lineString cs) (.line c d)) = true ↔
+      ∀ x, Geo.Proofs.Kernel.SegMem x c d → ∃ s ∈ segs cs, Geo.Proofs.Kernel.SegMem x s.1 s.2 :=
+  Geo.Proofs.C02Y.isContains_lineString_line cs c d hcd
+
+example : Gen.isContains (relateSpec (.lineString [⟨0, 0⟩, ⟨4, 0⟩]) (.line ⟨1, 0⟩ ⟨5, 0⟩)) = false := by
+  cases h : Gen.isContains (relateSpec (.lineString [⟨0, 0⟩, ⟨4, 0⟩]) (.line ⟨1, 0⟩ ⟨5, 0⟩)) with
+  | false => rfl
+  | true =>
+    exfalso
+    obtain ⟨s, hs, t, _, _, hx, _⟩ := (isContains_lineString_line _ _ _ (by decide)).mp h ⟨5, 0⟩
+      ⟨1, by norm_num, by norm_num, by norm_num, by norm_num⟩
+    simp only [segs, List.mem_singleton] at hs
+    subst hs
+    simp only at hx
+    nlinarith
+
+/-- [T] `LineString: Contains<Line>` (the two-pass truncation loop `lsContainsLine`) is the mask on the specification, given
+the point-set statement about the loop. Full statement (no `hloop`; valid line string, non-degenerate line): needs the loop
+invariant of `cutStep` — "what is left of the query segment is `[s, e]`, the rest is covered" — and that two passes over the
+segments of a simple line string always suffice; not proved, [C] decides `LineString × Line` and `LineString × LineString`
+meanwhile. -/
+theorem containsM_lineString_line_partial (cs : List Pt) (c d : Pt) (hb : inDomain (.line c d) = true)
+    (hloop : lsContainsLine cs c d = true ↔
+      ∀ x, Geo.Proofs.Kernel.SegMem x c d → ∃ s ∈ segs cs, Geo.Proofs.Kernel.SegMem x s.1 s.2) :
+    containsM (.lineString cs) (.line c d) = Gen.isContains (relateSpec (.lineString cs) (.line c d)) :=
+  Geo.Proofs.C02Y.containsM_lineString_line_of_loop cs c d hb hloop
+
+example : containsM (.lineString [⟨0, 0⟩, ⟨4, 0⟩]) (.line ⟨1, 0⟩ ⟨3, 0⟩) =
+    Gen.isContains (relateSpec (.lineString [⟨0, 0⟩, ⟨4, 0⟩]) (.line ⟨1, 0⟩ ⟨3, 0⟩)) :=
+  containsM_lineString_line_partial _ _ _ (by decide +kernel)
+    ⟨fun _ x hx => ⟨(⟨0, 0⟩, ⟨4, 0⟩), by simp [segs], by
+        obtain ⟨t, t0, t1, hx1, hx2⟩ := hx
+        exact ⟨1 / 4 + t / 2, by linarith, by linarith, by rw [hx1]; ring, by rw [hx2]; ring⟩⟩,
+      fun _ => by decide +kernel⟩
+
+/-- [T] **`Rect: Contains<Rect>` (four non-strict comparisons) is the mask on the specification**, both Rects of positive width
+and height (for a degenerate operand it is not: K7, `rectContainsRect_degenerate_witness`). Both operands are areal: the
+face samples of the specification are located exactly (`Geo.Proofs.C02Y.rect_windingE`: winding number of `Rect::to_polygon`
+about a point perturbed by the symbolic infinitesimal). -/
+theorem containsM_rect_rect (amn amx bmn bmx : Pt) (ha : inDomain (.rect amn amx) = true)
+    (hb : inDomain (.rect bmn bmx) = true) :
+    containsM (.rect amn amx) (.rect bmn bmx) = Gen.isContains (relateSpec (.rect amn amx) (.rect bmn bmx)) :=
+  Geo.Proofs.C02Y.containsM_rect_rect amn amx bmn bmx ha hb
+
+example : containsM (.rect ⟨0, 0⟩ ⟨4, 4⟩) (.rect ⟨0, 1⟩ ⟨2, 4⟩) =
+    Gen.isContains (relateSpec (.rect ⟨0, 0⟩ ⟨4, 4⟩) (.rect ⟨0, 1⟩ ⟨2, 4⟩)) :=
+  containsM_rect_rect _ _ _ _ (by decide +kernel) (by decide +kernel)
 
 /-! ### TRAN: the `CoordinatePosition` accumulator, clause by clause, is the term read off the Rust bodies -/
 
